@@ -600,3 +600,5 @@ def run(ck, facts, tier):
     ck.assumptions = ["BTreeSet, HashMap and Term::eq/hash (C02) are correct", "term indexes handed out by SimpleTermIndex are < MAX "
                       "(ensure_index rejects i >= MAX: C10/R1.4)", "all index widths share the generic code analysed here"]
     ck.trusted = ["rustc MIR", "the role-propagation transfer functions in rules/roles.py (role-preserving callee list)"]
+    import witness
+    witness.apply(ck, "C01")
